@@ -214,6 +214,12 @@ def make_tb(kind="ok"):
     if kind == "two-ports":
         tb.extra = h.Port()
         tb.r2 = h.Instance(of=h.R(r=5))(p=tb.extra, n=tb.out)
+    elif kind in ("scalar+bus", "scalar+two-buses"):
+        tb.wide = h.Port(width=3)
+        tb.r2 = h.Instance(of=h.R(r=5))(p=tb.wide[0], n=tb.out)
+        if kind == "scalar+two-buses":
+            tb.wide2 = h.Input(width=2)
+            tb.r3 = h.Instance(of=h.R(r=5))(p=tb.wide2[1], n=tb.out)
     elif kind == "bus-port":
         tb2 = h.Module(name=f"Tb{n}b")
         tb2.VSS = h.Port(width=2)
@@ -587,7 +593,7 @@ def lists(rec, rng, k):
 def bad_tbs(rec):
     import hdl21.sim as hs
 
-    for kind, must_reject in (("no-port", True), ("two-ports", True), ("bus-port", True), ("bundle-port", True), ("only-bundle-port", None), ("ok", False)):
+    for kind, must_reject in (("no-port", True), ("two-ports", True), ("bus-port", True), ("scalar+bus", True), ("scalar+two-buses", True), ("bundle-port", True), ("only-bundle-port", None), ("ok", False)):
         rec.count("bad-tb.probed")
         case = {"kind": "tb", "tb": kind}
         rec.case(key=f"tb:{kind}", nontrivial=True, sample=case)
